@@ -5,7 +5,7 @@ from .retro_common import fixture_values
 PROPERTY = "C11"
 LEVEL = "model_checking"
 TASK_QUOTA = 60
-BUDGET_S = {"quick": 280, "thorough": 1700}
+BUDGET_S = {"quick": 600, "thorough": 3000}
 FUNCTIONS = [
     "batchie.core.RetrospectivePlateGenerator.generate_plates / RetrospectivePlateSmoother.smooth_plates / InitialRetrospectivePlateGenerator.generate_and_unmask_initial_plate",
     "batchie.retrospective.PairwisePlateGenerator / PlatePermutationPlateGenerator / SampleSegregatingPermutationPlateGenerator._generate_plates",
